@@ -70,6 +70,27 @@ inline void gate_eval(int g, LweSample *r, const LweSample *a, const LweSample *
     }
 }
 
+// process history: a key set of a custom parameter set (every dimension and decomposition different from the default sets) is
+// generated and all bootstrapped gates are evaluated with it, before the workload proper. Nothing the library derives from the
+// first parameters it sees may leak into later evaluations with other parameters.
+inline void history_other_parameter_set(Rng &rng) {
+    PSet ps(10 + (int) rng.below(5), 1024, 1, 4, 6, 5, 3, ldexp(1., -20), ldexp(1., -30));
+    VH_OP("history:other-parameter-set:keygen");
+    TFheGateBootstrappingSecretKeySet *sk = new_random_gate_bootstrapping_secret_keyset(ps.gb);
+    LweSample *x = new_gate_bootstrapping_ciphertext_array(4, ps.gb);
+    for (int g = 0; g <= G_MUX; g++) for (int v = 0; v < 8; v++) {
+        if (GATES[g].arity < 3 && (v & 4)) continue;
+        for (int i = 0; i < 3; i++) bootsSymEncrypt(x + i, (v >> i) & 1, sk);
+        VH_OP("history:other-parameter-set:boots%s", GATES[g].name);
+        gate_eval(g, x + 3, x, x + 1, x + 2, v & 1, &sk->cloud);
+        out.evaluations++;
+        if (bootsSymDecrypt(x + 3, sk) != gate_truth(g, v & 1, (v >> 1) & 1, (v >> 2) & 1))
+            out.viol(std::string("gate:wrong-output:") + GATES[g].name, J().s("gate", GATES[g].name).s("config", "custom " + ps.name() + " (used first in the process)").i("a", v & 1).i("b", (v >> 1) & 1).i("c", (v >> 2) & 1));
+    }
+    delete_gate_bootstrapping_ciphertext_array(4, x); delete_gate_bootstrapping_secret_keyset(sk);
+    out.cell("history:custom-parameter-set-used-first-in-this-process");
+}
+
 static const U ONE_EIGHTH = 1u << 29;
 
 // exact phase under the LWE secret key of a key set
